@@ -144,3 +144,143 @@ pub fn err_tag(e: &lopdf::Error) -> String {
     let cut = s.find(|c: char| !(c.is_alphanumeric() || c == '_')).unwrap_or(s.len());
     s[..cut].to_string()
 }
+
+// ---------------------------------------------------------------------------------------------
+// TLA-flavoured projection (spec/PdfObjects.tla): integers as sign + decimal digit arrays, reals
+// with the exact decimal expansion of their f32 rounding interval, dictionaries as pair arrays.
+
+fn digits_of_str(s: &str) -> Vec<u8> {
+    s.bytes().filter(|b| b.is_ascii_digit()).map(|b| b - b'0').collect()
+}
+
+/// decimal digits (most significant first) of n * 2^p as (integer digits, fraction digits), exact.
+fn exact_decimal(n: u64, p: i32) -> (Vec<u8>, Vec<u8>) {
+    // big decimal as little-endian digit vector
+    let mut d: Vec<u8> = n.to_string().bytes().rev().map(|b| b - b'0').collect();
+    let mul = |d: &mut Vec<u8>, m: u32| {
+        let mut carry = 0u32;
+        for x in d.iter_mut() {
+            let v = *x as u32 * m + carry;
+            *x = (v % 10) as u8;
+            carry = v / 10;
+        }
+        while carry > 0 {
+            d.push((carry % 10) as u8);
+            carry /= 10;
+        }
+    };
+    if p >= 0 {
+        for _ in 0..p {
+            mul(&mut d, 2);
+        }
+        d.reverse();
+        (strip_leading(d), vec![])
+    } else {
+        let k = (-p) as usize;
+        for _ in 0..k {
+            mul(&mut d, 5);
+        }
+        // value = d / 10^k
+        while d.len() <= k {
+            d.push(0);
+        }
+        let frac: Vec<u8> = d[..k].iter().rev().copied().collect();
+        let int: Vec<u8> = d[k..].iter().rev().copied().collect();
+        let mut frac = frac;
+        while frac.last() == Some(&0) {
+            frac.pop();
+        }
+        (strip_leading(int), frac)
+    }
+}
+
+fn strip_leading(mut v: Vec<u8>) -> Vec<u8> {
+    while v.len() > 1 && v[0] == 0 {
+        v.remove(0);
+    }
+    if v.is_empty() {
+        v.push(0);
+    }
+    v
+}
+
+fn dec_json(d: (Vec<u8>, Vec<u8>)) -> Value {
+    json!({"ip": d.0, "fp": d.1})
+}
+
+/// The set of decimals that denote the finite f32 `x` under round-to-nearest-even:
+/// [lo, hi] on the magnitude, closed iff the mantissa is even.
+pub fn real_to_tla(x: f32) -> Value {
+    let bits = x.to_bits();
+    let neg = bits >> 31 == 1;
+    let exp = ((bits >> 23) & 0xff) as i32;
+    let frac = (bits & 0x7f_ffff) as u64;
+    if exp == 0xff {
+        return json!({"k": "real", "neg": neg, "nonfinite": true, "bits": bits.to_string()});
+    }
+    let (m, e) = if exp == 0 { (frac, -149) } else { (frac | 0x80_0000, exp - 150) };
+    // value = m * 2^e.  hi = (2m+1) * 2^(e-1);  lo = (2m-1) * 2^(e-1), or at a binade boundary (4m-1) * 2^(e-2)
+    let hi = exact_decimal(2 * m + 1, e - 1);
+    let lo = if m == 0 {
+        (vec![0], vec![])
+    } else if frac == 0 && exp > 1 {
+        exact_decimal(4 * m - 1, e - 2)
+    } else {
+        exact_decimal(2 * m - 1, e - 1)
+    };
+    let integral = x.fract() == 0.0;
+    let iv = if integral { exact_decimal(m, e).0 } else { vec![] };
+    json!({"k": "real", "neg": neg, "lo": dec_json(lo), "hi": dec_json(hi), "incl": m % 2 == 0,
+           "int": integral, "iv": iv})
+}
+
+pub fn dict_to_tla(d: &Dictionary) -> Value {
+    let mut pairs: Vec<(&Vec<u8>, &Object)> = d.iter().collect();
+    pairs.sort_by(|a, b| a.0.cmp(b.0));
+    Value::Array(pairs.into_iter().map(|(k, v)| Value::Array(vec![bytes_to_json(k), obj_to_tla(v)])).collect())
+}
+
+pub fn obj_to_tla(o: &Object) -> Value {
+    match o {
+        Object::Null => json!({"k":"null"}),
+        Object::Boolean(b) => json!({"k":"bool","v":*b}),
+        Object::Integer(i) => json!({"k":"int","neg": *i < 0, "v": digits_of_str(&i.to_string())}),
+        Object::Real(r) => real_to_tla(*r),
+        Object::Name(n) => json!({"k":"name","v":bytes_to_json(n)}),
+        Object::String(s, _) => json!({"k":"str","v":bytes_to_json(s)}),
+        Object::Array(a) => json!({"k":"arr","v":Value::Array(a.iter().map(obj_to_tla).collect())}),
+        Object::Dictionary(d) => json!({"k":"dict","v":dict_to_tla(d)}),
+        Object::Stream(s) => json!({"k":"stream","v":dict_to_tla(&s.dict),"w":bytes_to_json(&s.content)}),
+        Object::Reference(id) => json!({"k":"ref","v":id.0,"w":id.1}),
+    }
+}
+
+/// pi(Document) in the TLA flavour.
+pub fn doc_to_tla(d: &Document) -> Value {
+    json!({
+        "version": bytes_to_json(d.version.as_bytes()),
+        "binmark": bytes_to_json(&d.binary_mark),
+        "max_id": d.max_id,
+        "trailer": dict_to_tla(&d.trailer),
+        "objects": Value::Array(d.objects.iter().map(|(id, o)| json!([id.0, id.1, obj_to_tla(o)])).collect()),
+    })
+}
+
+#[cfg(test)]
+mod tests {
+    use super::*;
+    #[test]
+    fn intervals() {
+        // 0.5 = 2^-1: binade boundary; neighbours 0.5 - 2^-25 and 0.5 + 2^-24
+        let v = real_to_tla(0.5);
+        assert_eq!(v["hi"]["ip"], json!([0]));
+        let hi: Vec<u64> = v["hi"]["fp"].as_array().unwrap().iter().map(|x| x.as_u64().unwrap()).collect();
+        // hi = 0.5 + 2^-25 = 0.500000029802322387695312500
+        assert_eq!(&hi[..9], &[5, 0, 0, 0, 0, 0, 0, 2, 9]);
+        let v = real_to_tla(1e20);
+        assert_eq!(v["int"], json!(true));
+        assert_eq!(v["iv"].as_array().unwrap().len(), 21);
+        let v = real_to_tla(3.0);
+        assert_eq!(v["iv"], json!([3]));
+    }
+}
